@@ -775,6 +775,9 @@ theorem step_refines (env : Env) (i : Instr) (pre st : List Val) (hr : Spec.step
     exact step_unop env pre st (.EMIT tag t) (Spec.unV env (.EMIT tag t)) (Impl.execUn env (.EMIT tag t))
       (fun _ _ => rfl) rfl (fun _ => rfl) (execUn_eq env (.EMIT tag t)) hr
   case SELF ep t => simp [Impl.step, Spec.step, addrFromValue_eq]
+  case PACK =>
+    exact step_unop env pre st .PACK (Spec.unV env .PACK) (Impl.execUn env .PACK) (fun _ _ => rfl) rfl (fun _ => rfl)
+      (execUn_eq env .PACK) hr
   case TRANSFER_TOKENS =>
     exact step_ternop env pre st .TRANSFER_TOKENS (Spec.transferTokensV env) (Impl.execTransferTokens env) (fun _ _ _ _ => rfl) rfl
       (fun a => rfl) (fun a b => rfl) (fun _ => rfl) (execTransferTokens_eq env) hr
